@@ -393,6 +393,10 @@ class Relay(evx.System):
         self.reactor.clock.advance(max(0.0, nxt - self.reactor.clock.seconds()))
       elif kind == 'rx_connect':
         self.rx_connect()
+        p_, t_ = self.receivers[-1]
+        if (t_.producerState != 'producing') != bool(self.state.metricReceiversPaused):
+          return ('new-connection-not-in-step', 'a receiver connected while metricReceiversPaused=%r is %s' % (
+            self.state.metricReceiversPaused, t_.producerState))
       elif kind == 'rx_disconnect':
         self.rx_disconnect()
       elif kind == 'stop':
@@ -493,12 +497,13 @@ class Relay(evx.System):
         c.state if c is not None else None,
         bool(t.closing) if t is not None else None,
         bool(getattr(proto, 'paused', False)) if proto is not None else None,
-        f is not None, bool(f.queueFull.called) if f is not None else None,
-        bool(f.queueHasSpace.called) if f is not None else None,
+        f is not None, bool(getattr(getattr(f, 'queueFull', None), 'called', False)),
+        bool(getattr(getattr(f, 'queueHasSpace', None), 'called', False)),
         min(self.retries[d], self.p.get('max_retries', 1) + 1),
-        round(f.delay, 3) if f is not None else None,
-        bool(f.continueTrying) if f is not None else None,
-        bool(f.started) if f is not None else None,
+        round(getattr(f, 'delay', 0.0), 3) if f is not None else None,
+        bool(getattr(f, 'continueTrying', False)) if f is not None else None,
+        bool(getattr(f, 'started', False)) if f is not None else None,
+        bool(getattr(getattr(f, 'deferSendPending', None), 'active', lambda: False)()) if f is not None else None,
         d in self.member,
         len(self.buf[d]),
       ))
@@ -506,6 +511,19 @@ class Relay(evx.System):
     rx = tuple(t.producerState for p, t in self.receivers)
     return (tuple(per), timers, tuple((m, rank[k]) for m, k in self.unrouted), bool(self.state.metricReceiversPaused),
             bool(self.state.cacheTooFull), self.stopped, rx)
+
+  def on_new_state(self):
+    """Delivery liveness (C07): in a benign environment every queue of a connected destination drains."""
+    if not self.p.get('probe_delivery', True):
+      return None
+    v = self.quiesce()
+    if v:
+      return v
+    for d in self.dests:
+      c = self.connector(d)
+      if c is not None and c.state == 'connected' and self.q[d]:
+        return ('stuck-queue', 'quiescent (connected, unpaused, no timer pending) but %r still holds %r' % (d, self.q[d]))
+    return None
 
   # ---- quiescence (C09) ---------------------------------------------------------------------------------------------
   def quiesce(self):
